@@ -214,14 +214,17 @@ fn worker_main(args: &[String]) -> i32 {
 // ---------------------------------------------------------------------------------------------
 // minimisation
 
-fn minimise(prop: &dyn Property, case: &J, class: &str, budget: usize) -> (J, usize) {
+fn minimise(prop: &dyn Property, case: &J, class: &str, budget: usize, deadline: Instant) -> (J, usize) {
     let mut cur = case.clone();
     let mut used = 0usize;
     loop {
+        if Instant::now() > deadline {
+            return (cur, used);
+        }
         let mut progressed = false;
         let candidates = prop.shrink(&cur);
         for cand in candidates {
-            if used >= budget {
+            if used >= budget || Instant::now() > deadline {
                 return (cur, used);
             }
             if cand == cur {
@@ -438,6 +441,7 @@ fn run_main(args: &[String]) -> i32 {
     let mut known_hits = 0;
     let replay_dir = dir.join("replays");
     let mut violation_summaries = Vec::new();
+    let minimise_until = Instant::now() + std::time::Duration::from_secs(180);
     for v in &violations {
         let class = util::jstr(v, "class");
         let features = v["features"].clone();
@@ -458,7 +462,10 @@ fn run_main(args: &[String]) -> i32 {
         // minimise and write the replay file
         let case = v["case"].clone();
         let hung = class.ends_with("no_termination") && util::jstr(v, "detail").contains("hung=true");
-        let (min_case, used) = if hung { (case.clone(), 0) } else { minimise(prop.as_ref(), &case, &class, 2000) };
+        // minimisation is bounded in executions and in wall time (per class and for the whole report)
+        let per_class = std::env::var("VERIF_MINIMISE_SECS").ok().and_then(|s| s.parse::<u64>().ok()).unwrap_or(40);
+        let deadline = (Instant::now() + std::time::Duration::from_secs(per_class)).min(minimise_until);
+        let (min_case, used) = if hung { (case.clone(), 0) } else { minimise(prop.as_ref(), &case, &class, 2000, deadline) };
         let final_outcome = prop.check(&min_case, true);
         let (detail, min_features) = match &final_outcome.violation {
             Some(fv) => (fv.detail.clone(), fv.features.clone()),
